@@ -22,7 +22,7 @@ SPEC = os.path.join(vlib.SPECS, "text")
 CONF = {
     "C30": dict(mode="droplet", mc=("MCDroplet", "MCDroplet.cfg"), oracle=("DropletRecords", "DropletRecords.cfg"), count={"quick": 12000, "thorough": 600000},
                 mcconst="Places=2 MaxValue=1299 MaxLen=5 alphabet {0,1,3,9,.,-,+,e}"),
-    "C15": dict(mode="base58", mc=("MCBase58", "MCBase58.cfg"), oracle=("Base58Records", "Base58Records.cfg"), count={"quick": 4000, "thorough": 60000},
+    "C15": dict(mode="base58", mc=("MCBase58", "MCBase58.cfg"), oracle=("Base58Records", "Base58Records.cfg"), count={"quick": 4000, "thorough": 30000},
                 mcconst="byte strings of length <= 3 over {0,1,57,58,59,127,128,255}; texts of length <= 3 over {1,2,A,z,0,I,l,0xC8}"),
 }
 
@@ -37,7 +37,7 @@ def run(res, prop, tier, seed, work, replay=None):
     p = vlib.run([binary, recs, str(seed), str(count), c["mode"]], timeout=3000, check=False)
     if p.returncode != 0 or not os.path.exists(recs):
         raise Infra("textrec failed:\n" + (p.stdout or "")[-2000:])
-    st, mism = vlib.validate_records(SPEC, c["oracle"][0], c["oracle"][1], work, recs, chunk=40000, with_reason=True)
+    st, mism = vlib.validate_records(SPEC, c["oracle"][0], c["oracle"][1], work, recs, chunk=10000, with_reason=True)
     seen = collections.Counter()
     for i, (r, parts) in enumerate(mism):
         why = parts[1]
